@@ -570,6 +570,51 @@ template <class G> struct Runner {
             visitInsertions(n, cyc, "cycle, n=" + std::to_string(n));
         }
     }
+    // long chains, cycles with chords, triangle snakes: sizes beyond 32 / 64 / 128 / 256 vertices
+    void sourceChains(unsigned maxN) {
+        for (unsigned n : {33u, 40u, 64u, 65u, 70u, 129u, 200u, 300u}) {
+            if (n > maxN) continue;
+            std::vector<std::tuple<unsigned, unsigned, long>> path, ring, rev;
+            for (unsigned i = 0; i + 1 < n; ++i) { path.emplace_back(i, i + 1, 1L); rev.emplace_back(n - 1 - i, n - 2 - i, 1L); }
+            for (unsigned i = 0; i < n; ++i) { ring.emplace_back(i, (i + 1) % n, 1L); if (i % 9 == 0) ring.emplace_back(i, (i + n / 3) % n, 1L); if (i % 13 == 0) ring.emplace_back(i, i, 1L); }
+            visitInsertions(n, path, "path on " + std::to_string(n) + " vertices");
+            visitInsertions(n, rev, "descending path on " + std::to_string(n) + " vertices");
+            visitInsertions(n, ring, "ring with chords on " + std::to_string(n) + " vertices");
+            if (stop()) return;
+        }
+    }
+    void sourceSnake(unsigned maxT) { // chain of triangles: spine 0..t, one apex per triangle; two insertion orders
+        for (unsigned t = 1; t <= maxT; ++t)
+            for (int apexFirst = 0; apexFirst < 2; ++apexFirst) {
+                std::vector<std::tuple<unsigned, unsigned, long>> ins;
+                for (unsigned i = 0; i < t; ++i) {
+                    auto sp = std::make_tuple(i, i + 1, 1L), up = std::make_tuple(i, t + 1 + i, 1L), dn = std::make_tuple(t + 1 + i, i + 1, 1L);
+                    if (apexFirst) { ins.push_back(up); ins.push_back(dn); ins.push_back(sp); }
+                    else { ins.push_back(sp); ins.push_back(up); ins.push_back(dn); }
+                }
+                visitInsertions(2 * t + 1, ins, "triangle snake t=" + std::to_string(t));
+            }
+    }
+    // every edge set on n vertices (ascending insertion) followed by ONE forced duplicate of one of its edges
+    void sourceDups(unsigned n) {
+        if constexpr (T::fam == PLAIN) {
+            auto pairs = allPairs(n, T::directed, true);
+            for (unsigned long mask = 1; mask < (1ul << pairs.size()); ++mask)
+                for (size_t d = 0; d < pairs.size(); ++d) {
+                    if (!(mask & (1ul << d))) continue;
+                    G g(n);
+                    Model m;
+                    m.directed = T::directed;
+                    m.n = n;
+                    for (size_t k = 0; k < pairs.size(); ++k)
+                        if (mask & (1ul << k)) { g.addEdge(pairs[k].first, pairs[k].second); Ent en; m.e[m.canon(pairs[k].first, pairs[k].second)] = en; }
+                    g.addEdge(pairs[d].first, pairs[d].second, true);
+                    visit(g, m, "edge set " + maskText(pairs, mask) + " then a forced duplicate of (" + std::to_string(pairs[d].first) + "," + std::to_string(pairs[d].second) + ")", "--source dups --n " + std::to_string(n));
+                    if ((mask & 0xff) == 0 && stop()) return;
+                }
+        }
+    }
+
     // "shortcut ladder": chain 0..L; step i has an expensive direct edge and a cheap two-edge detour.
     void sourceLadder(unsigned maxL) {
         for (unsigned L = 1; L <= maxL; ++L)
@@ -633,6 +678,9 @@ template <class G> int runOne(const std::string &prop, const std::string &name, 
     else if (source == "layered") run.sourceLayered((unsigned)args.getInt("maxv", 12), args.getInt("weight", 1));
     else if (source == "grid") run.sourceGrid((unsigned)args.getInt("side", 5), args.getInt("weight", 1));
     else if (source == "dense") run.sourceDense((unsigned)args.getInt("maxn", 8), args.getInt("weight", 0));
+    else if (source == "chains") run.sourceChains((unsigned)args.getInt("maxn", 300));
+    else if (source == "snake") run.sourceSnake((unsigned)args.getInt("maxt", 40));
+    else if (source == "dups") run.sourceDups(n);
     else if (source == "ladder") run.sourceLadder((unsigned)args.getInt("maxl", 26));
     else if (source == "insertions") { // replay of one explicit graph
         std::vector<std::tuple<unsigned, unsigned, long>> ins;
